@@ -35,8 +35,10 @@ class SplitMux(Spawner):
     def inv(self, c, slots, hist):
         (m, v), = slots
         n = Length(hist)
-        # the slot holds (a value equal to) the predicate of the previous item of this lifetime
-        return And((m == M_NOTSET) == (n == 0), Implies(m == M_SET, py_eq(v, ufn('predicate')(hist[n - 1]))))
+        # the slot holds the predicate value of the previous item of this lifetime, or a value == to it (the first of the run).
+        # == is not reflexive on NaN, hence the first disjunct.
+        last = ufn('predicate')(hist[n - 1])
+        return And((m == M_NOTSET) == (n == 0), Implies(m == M_SET, Or(v == last, py_eq(v, last))))
 
     def may_raise(self, c, q):
         return BoolVal(isinstance(q.exc, ExcV) and q.exc.origin == 'predicate')
